@@ -3,8 +3,15 @@ import fcntl, hashlib, os, re, subprocess, time
 
 ROOT = os.path.dirname(os.path.dirname(os.path.abspath(__file__)))
 LEAN = os.path.join(ROOT, "lean")
-HARNESS = os.path.join(ROOT, "harness")
 WORK = os.path.join(ROOT, ".work")
+# The registered checks always verify /repo.  VERIF_REPO points the same machinery at another
+# checkout (a scratch worktree carrying a seeded change) without touching /repo or the shared build:
+# the harness is copied with its path dependency rewritten and built in its own target directory,
+# and regenerated tables are compared with the proved ones instead of being written.
+REPO = os.path.abspath(os.environ.get("VERIF_REPO", "/repo"))
+ALT = REPO != "/repo"
+HARNESS_SRC = os.path.join(ROOT, "harness")
+HARNESS = HARNESS_SRC if not ALT else os.path.join(WORK, "alt", re.sub(r"[^A-Za-z0-9]+", "_", REPO).strip("_"), "harness")
 ENV = dict(os.environ, CARGO_NET_OFFLINE="true", RUST_BACKTRACE="0")
 AXIOM_WHITELIST = {"propext", "Classical.choice", "Quot.sound"}
 
@@ -30,11 +37,18 @@ def sh(cmd, cwd=None, timeout=3600):
 
 def cargo_build(release=False):
     """Build the harness (and with it /repo's current working tree). Returns (ok, log, bindir)."""
-    with Lock("cargo"):
+    with Lock("cargo" if not ALT else "cargo_" + os.path.basename(os.path.dirname(HARNESS))):
+        import shutil
+        if ALT:
+            os.makedirs(HARNESS, exist_ok=True)
+            shutil.copytree(os.path.join(HARNESS_SRC, "src"), os.path.join(HARNESS, "src"), dirs_exist_ok=True)
+            shutil.copytree(os.path.join(HARNESS_SRC, ".cargo"), os.path.join(HARNESS, ".cargo"), dirs_exist_ok=True)
+            toml = open(os.path.join(HARNESS_SRC, "Cargo.toml")).read().replace('path = "/repo"', 'path = "%s"' % REPO)
+            with open(os.path.join(HARNESS, "Cargo.toml"), "w") as f:
+                f.write(toml)
         lock = os.path.join(HARNESS, "Cargo.lock")
         if not os.path.exists(lock):
-            import shutil
-            shutil.copy("/repo/Cargo.lock", lock)
+            shutil.copy(os.path.join(REPO, "Cargo.lock"), lock)
         cmd = ["cargo", "build", "--offline", "--bins"] + (["--release"] if release else [])
         env_flags = ENV.get("RUSTFLAGS", "")
         ENV["RUSTFLAGS"] = (env_flags + " --cfg pelite_verif -Awarnings").strip()
@@ -53,10 +67,13 @@ def regenerate(bindir):
     with Lock("lake"):
         old = open(path).read() if os.path.exists(path) else ""
         changed = old != out
-        if changed:
+        if changed and not ALT:
             with open(path, "w") as f:
                 f.write(out)
-    return {"ok": True, "changed": changed, "sha256": hashlib.sha256(out.encode()).hexdigest()}
+        elif changed:
+            with open(os.path.join(os.path.dirname(HARNESS), "Tables.lean"), "w") as f:
+                f.write(out)
+    return {"ok": True, "changed": changed, "alt_differs": bool(changed and ALT), "sha256": hashlib.sha256(out.encode()).hexdigest()}
 
 
 def lake_build(targets):
